@@ -16,8 +16,18 @@ import (
 func checkParameterAssembly(p *Program, r *Report, initFns []*ssa.Function) {
 	r.Rule("R17.14", "parameter assembly: every store into the vector of parameter values handed to ApplyParameters is at the index that selects the described parameter (desc.Parameters[i], same index value) and stores that parameter's default or the result of a lookup under that parameter's name — or is at a position taken from a map with the two-result lookup and guarded by its presence flag; an unchecked lookup puts the value of an unknown name into slot 0")
 	n := 0
+	// bound: parameters of a helper that builds the vector, as the argument the caller passes
+	bound := map[ssa.Value]ssa.Value{}
 	isParamsList := func(v ssa.Value) bool {
-		nm, _, ok := loadedField(origin1(v))
+		o := origin1(v)
+		for i := 0; i < 3; i++ {
+			a, ok := bound[o]
+			if !ok {
+				break
+			}
+			o = origin1(a)
+		}
+		nm, _, ok := loadedField(o)
 		return ok && nm == "Parameters"
 	}
 	// describedField: v is field `f` of desc.Parameters[idx] (through a local copy of the element)
@@ -96,6 +106,36 @@ func checkParameterAssembly(p *Program, r *Report, initFns []*ssa.Function) {
 				continue
 			}
 			for _, vec := range vecs {
+				// the vector is built by a helper of the module (`params, warnings := m.parameterVector(desc.Parameters, …)`):
+				// judged inside the helper, its parameters standing for the arguments of this call
+				fn := fn
+				for depth := 0; depth < 3; depth++ {
+					var hc *ssa.Call
+					ri := 0
+					switch y := vec.(type) {
+					case *ssa.Extract:
+						hc, _ = y.Tuple.(*ssa.Call)
+						ri = y.Index
+					case *ssa.Call:
+						hc = y
+					}
+					if hc == nil {
+						break
+					}
+					h := hc.Common().StaticCallee()
+					if h == nil || h.Blocks == nil || !InModule(h) || len(h.Params) != len(hc.Common().Args) {
+						break
+					}
+					rets := returnsOf(h)
+					if len(rets) != 1 || ri >= len(rets[0].Results) {
+						break
+					}
+					for i, prm := range h.Params {
+						bound[prm] = hc.Common().Args[i]
+					}
+					vec = origin1(rets[0].Results[ri])
+					fn = h
+				}
 				if _, ok := vec.(*ssa.MakeSlice); !ok {
 					r.Unsupported("R17.14", "the vector of parameter values in "+FuncKey(fn)+" is not a slice made here")
 					continue
